@@ -12,8 +12,11 @@ EXTENDS Integers, Sequences, FiniteSets, TLC, Json
 CONSTANTS MaxDepth,   \* nesting of scopes
           MaxSteps,   \* actions per path
           MaxPend,    \* to-be-closed variables per scope
-          Kinds,      \* scope kinds allowed: subset of {"do","loop","forin","fn","pcall","co"}
+          Kinds,      \* scope kinds allowed: subset of {"do","loop","forin","fn","pcall","xpcall","co"}
           Handlers,   \* handler kinds allowed: subset of {"ok","raise","nil","false","nometa"}
+          ErrKinds,   \* error values: subset of {"str","tbl","pos","pos2","num","nilv","rt"}
+          XHandlers,  \* message-handler kinds of xpcall scopes: subset of {"val","none"}
+          Battery,    \* TRUE: after every caught error the program runs a fixed consistency battery (C11)
           ViewHist
 
 VARIABLES scopes,  \* Seq([kind, id, pend]) innermost last; pend = Seq([id, h]) in declaration order
@@ -29,7 +32,10 @@ Emit(v) == PrintT(<<"@@", ToJson(v)>>)
 Last(s) == s[Len(s)]
 ButLast(s) == SubSeq(s, 1, Len(s) - 1)
 
-FnLike(k) == k \in {"fn", "pcall", "co"}
+FnLike(k) == k \in {"fn", "pcall", "xpcall", "co"}
+Catcher(k) == k \in {"pcall", "xpcall", "co"}
+(* the events of the post-error consistency battery run by the code that caught an error in scope id *)
+Bat(id) == IF Battery THEN << <<"bat", id, 15, 3, 42, "x", FALSE, "B", "suspended">> >> ELSE <<>>
 LoopLike(k) == k \in {"loop", "forin"}
 
 (* run the handlers of one scope in reverse declaration order with in-flight error e ("nil" = none):
@@ -62,22 +68,22 @@ Unwind(sc, mode, cnt, e, rv, evs) ==
                              <<"after", top.id>>>>]
      ELSE Unwind(rest, "kill", 0, e2, rv, r.evs)
   ELSE IF e2 # "nil" THEN      \* error mode (entered by an error exit or by a raising handler)
-     IF top.kind = "pcall"
-     THEN [sc |-> rest, evs |-> r.evs \o << <<"pcall", top.id, FALSE, e2>>, <<"after", top.id>> >>, fin |-> "run"]
+     IF top.kind \in {"pcall", "xpcall"}
+     THEN [sc |-> rest, evs |-> r.evs \o << <<top.kind, top.id, FALSE, e2>> >> \o Bat(top.id) \o << <<"after", top.id>> >>, fin |-> "run"]
      ELSE IF top.kind = "co"
-     THEN [sc |-> rest, evs |-> r.evs \o << <<"resume", top.id, FALSE, e2>>, <<"after", top.id>> >>, fin |-> "run"]
+     THEN [sc |-> rest, evs |-> r.evs \o << <<"resume", top.id, FALSE, e2>> >> \o Bat(top.id) \o << <<"after", top.id>> >>, fin |-> "run"]
      ELSE Unwind(rest, "err", 0, e2, rv, r.evs)
   ELSE IF mode = "fn" THEN
      IF FnLike(top.kind)
      THEN [sc |-> rest, fin |-> "run",
-           evs |-> r.evs \o << (IF top.kind = "pcall" THEN <<"pcall", top.id, TRUE>> \o rv
+           evs |-> r.evs \o << (IF top.kind \in {"pcall", "xpcall"} THEN <<top.kind, top.id, TRUE>> \o rv
                                 ELSE IF top.kind = "co" THEN <<"resume", top.id, TRUE>> \o rv
                                 ELSE <<"ret", top.id>> \o rv), <<"after", top.id>> >>]
      ELSE Unwind(rest, "fn", 0, e2, rv, r.evs)
   ELSE \* "norm"
      IF cnt = 1
      THEN [sc |-> rest, fin |-> "run",
-           evs |-> r.evs \o (IF top.kind = "pcall" THEN << <<"pcall", top.id, TRUE>> >>
+           evs |-> r.evs \o (IF top.kind \in {"pcall", "xpcall"} THEN << <<top.kind, top.id, TRUE>> >>
                              ELSE IF top.kind = "co" THEN << <<"resume", top.id, TRUE>> >>
                              ELSE IF top.kind = "fn" THEN << <<"ret", top.id>> >> ELSE <<>>)
                       \o << <<"after", top.id>> >>]
@@ -90,6 +96,17 @@ FallOff(sc, evs) ==
   ELSE LET u == Unwind(sc, "norm", 1, "nil", <<>>, evs) IN
        IF u.fin # "run" THEN [evs |-> u.evs, fin |-> u.fin] ELSE FallOff(u.sc, u.evs)
 
+(* An error is raised in scope stack sc with value e: if the nearest enclosing catcher is an xpcall,
+   its message handler runs first, at the point of the error, and its result replaces the error value. *)
+RECURSIVE NearestCatcher(_)
+NearestCatcher(sc) == IF sc = <<>> THEN [kind |-> "none"] ELSE IF Catcher(Last(sc).kind) THEN Last(sc) ELSE NearestCatcher(ButLast(sc))
+Raise(sc, e) ==
+  LET c == NearestCatcher(sc) IN
+  IF c.kind = "xpcall"
+  THEN LET e2 == IF c.hk = "val" THEN "H" \o ToString(c.id) ELSE "NILV"
+       IN Unwind(sc, "err", 0, e2, <<>>, << <<"handler", c.id, e>> >>)
+  ELSE Unwind(sc, "err", 0, e, <<>>, <<>>)
+
 Init == scopes = <<>> /\ n = 0 /\ fin = "run" /\ out = <<>> /\ hist = <<>>
 
 Step(act, sc, f, evs) ==
@@ -101,17 +118,18 @@ Step(act, sc, f, evs) ==
 
 Can == fin = "run" /\ n < MaxSteps
 
-Open(kind) ==
+Open(kind, hk) ==
   /\ Can /\ Len(scopes) < MaxDepth /\ kind \in Kinds
-  /\ Step([a |-> "open", kind |-> kind],
-          Append(scopes, [kind |-> kind, id |-> n + 1,
+  /\ (kind = "xpcall") = (hk # "-")
+  /\ Step([a |-> "open", kind |-> kind, hk |-> hk],
+          Append(scopes, [kind |-> kind, id |-> n + 1, hk |-> hk,
                           pend |-> IF kind = "forin" THEN <<[id |-> n + 1, h |-> "ok"]>> ELSE <<>>]),
           "run", <<>>)
 
 Decl(h) ==
   /\ Can /\ scopes # <<>> /\ h \in Handlers /\ Len(Last(scopes).pend) < MaxPend
   /\ IF h = "nometa"
-     THEN LET u == Unwind(scopes, "err", 0, "STR", <<>>, <<>>) IN Step([a |-> "decl", h |-> h], u.sc, u.fin, u.evs)
+     THEN LET u == Raise(scopes, "Q" \o ToString(n + 1)) IN Step([a |-> "decl", h |-> h], u.sc, u.fin, u.evs)
      ELSE Step([a |-> "decl", h |-> h],
                IF h \in {"nil", "false"} THEN scopes
                ELSE [scopes EXCEPT ![Len(scopes)].pend = Append(@, [id |-> n + 1, h |-> h])],
@@ -144,10 +162,15 @@ ExitReturn(tail) ==
          u == Unwind(scopes, "fn", 0, "nil", <<k>>, IF tail THEN << <<"tail", k>> >> ELSE <<>>)
      IN Step([a |-> IF tail THEN "tailret" ELSE "return"], u.sc, u.fin, u.evs)
 
+(* error values: E<k> string raised with level 0; T<k> a table; P<k> string raised with level 1 (position of the
+   raising line prefixed); C<k> string raised with level 2 from a nested function called on the same line;
+   N<k> the number k; NILV nil; Q<k> a runtime error (message prefixed with the position of the line) *)
+ErrTok(kind, k) == IF kind = "nilv" THEN "NILV"
+                   ELSE (CASE kind = "str" -> "E" [] kind = "tbl" -> "T" [] kind = "pos" -> "P" [] kind = "pos2" -> "C"
+                           [] kind = "num" -> "N" [] kind = "rt" -> "Q") \o ToString(k)
 ExitError(kind) ==
-  /\ Can
-  /\ LET e == (IF kind = "str" THEN "E" ELSE "T") \o ToString(n + 1)
-         u == Unwind(scopes, "err", 0, e, <<>>, <<>>) IN Step([a |-> "error", kind |-> kind], u.sc, u.fin, u.evs)
+  /\ Can /\ kind \in ErrKinds
+  /\ LET u == Raise(scopes, ErrTok(kind, n + 1)) IN Step([a |-> "error", kind |-> kind], u.sc, u.fin, u.evs)
 
 ExitYieldClose ==
   /\ Can /\ InCo(scopes)
@@ -156,12 +179,12 @@ ExitYieldClose ==
      IN Step([a |-> "yieldclose"], u.sc, u.fin, u.evs)
 
 Next ==
-  \/ \E k \in Kinds : Open(k)
+  \/ \E k \in Kinds, hk \in XHandlers \cup {"-"} : Open(k, hk)
   \/ \E h \in Handlers : Decl(h)
   \/ ExitEnd \/ ExitBreak \/ ExitYieldClose
   \/ \E l \in 1..MaxDepth : ExitGoto(l)
   \/ \E t \in BOOLEAN : ExitReturn(t)
-  \/ \E kind \in {"str", "tbl"} : ExitError(kind)
+  \/ \E kind \in ErrKinds : ExitError(kind)
 
 Spec == Init /\ [][Next]_vars
 
